@@ -93,8 +93,9 @@ fn apply(p: &Prog, e: &Edit) -> (Prog, Vec<(usize, Fate)>, Vec<usize>) {
                     if last == 0 {
                         false
                     } else {
+                        // keep the surface form: in `sequence(a: A, b: B where ..)` the step filter is part of
+                        // the SOURCE clause, in `A as a -> B where ..` it is an operation
                         pat.steps[last].filter = Some(vh_gen::seq::Filter::Const { field: "v".into(), op: Op::Ge, c: vh_gen::V::Int(2) });
-                        pat.seq_form = false;
                         vh_gen::seq::normalise(pat);
                         true
                     }
